@@ -338,14 +338,14 @@ def run_ob(ob, tier, workdir):
         for combo in combos[1:]:
             rc, outE, _ = sh(['goto-cc', '--function', ob.entry, 'h.c', '-o', 'a.gb', '-I', ROOT] + enum_defs(combo), 120, log, cwd=d)
             if rc != 0: verdict = 'goto-cc failed for %s' % (combo,); break
-            for _rnd in range(20):
+            for _rnd in range(40):
                 rc, outE, d1 = sh(cbE, to, log, cwd=d, mem_gb=memgb); dt += d1
                 badE = [m.group(1) for m in re.finditer(r'^\[([^\]]+\.unwind\.\d+)\] .*unwinding assertion loop \d+: FAILURE', outE, re.M)]
                 if not (badE and ob.adaptive_unwind and ob.unwind is not None): break
                 grownE = False
                 for b in badE:       # this instance takes a path with longer loops: raise those bounds (kept for the following instances)
                     fn, nn = b.rsplit('.unwind.', 1); lid = '%s.%s' % (fn, nn); cur = uset.get(lid, U0)
-                    if cur < ob.unwind: uset[lid] = min(ob.unwind, cur + 2); grownE = True
+                    if cur < ob.unwind: uset[lid] = min(ob.unwind, max(cur + 2, 2 * cur)); grownE = True
                 if not grownE: break
                 ob_unwind_flags = ['--unwind', str(U0)] + ['--unwindset', ','.join('%s:%d' % kv for kv in sorted(uset.items()))]
                 cbE = cb0 + ob_unwind_flags + ['--unwinding-assertions']
